@@ -68,7 +68,7 @@ def cidq (s : Handler) : List String → Handler × String
       | (s', .discarded) => (s', s!"ok discarded {cidqPending s'.pending} {cidqState s'.q}")
       | (s', .err code site) =>
         let why := if site = 0 then "cids-not-in-use" else if site = 1 then "retiring-unissued"
-          else if site = 2 then s!"too-many-retired {cidqPending s'.pending} {cidqState s'.q}"
+          else if site = 2 ∨ site = 4 then s!"too-many-retired {cidqPending s'.pending} {cidqState s'.q}"
           else s!"limit {cidqPending s'.pending} {cidqState s'.q}"
         (s', s!"err {errName code} {why}")
     | none => (s, "bad-op")
